@@ -180,7 +180,7 @@ class CasJsonDeserializer:
                     # In case the Sofa references a byte array that has not been parsed yet, we need to fetch it
                     sofa_byte_array_ref = json_fs.get(REF_FEATURE_PREFIX + FEATURE_BASE_NAME_SOFAARRAY)
                     if sofa_byte_array_ref and not feature_structures.get(sofa_byte_array_ref):
-                        parse_and_add(sofa_byte_array_ref, json_feature_structures.get(sofa_byte_array_ref))
+                        parse_and_add(sofa_byte_array_ref, json_feature_structures.get(str(sofa_byte_array_ref)))
                     fs_id = int(fs_id)
                     fs = self._parse_sofa(cas, fs_id, json_fs, feature_structures)
                     feature_structures[fs.xmiID] = fs
